@@ -47,7 +47,7 @@ ASSUMPTIONS = [
 ]
 PROBES = ["site:encoding-name", "site:cmapname-stream", "site:usecmap", "site:registry-ordering", "site:image-name", "site:image-attr", "name:dotdot", "name:absolute", "name:nul", "name:long", "name:existing-file", "name:separator", "name:sibling-prefix", "name:lookalike", "state:CMAP_PATH unset", "image:oversize", "state:long run of occupied names", "state:outdir-absent", "state:outdir-nested", "state:preexisting-image-name", "second export in the same process", "image exported", "bait file present at traversal target"]
 TIERS = {
-    "quick": {"batches": 16, "runs": 500, "budget_s": 45},
+    "quick": {"batches": 16, "runs": 500, "budget_s": 120},
     "thorough": {"batches": 128, "runs": 500, "budget_s": 900},
 }
 DETERMINISM_SLICE = 4
